@@ -369,13 +369,16 @@ class RealEncoder(AbstractItemEncoder):
 
         m *= ms
 
-        if encbase == 8:
-            m *= 2 ** (abs(e) % 3 * es)
-            e = abs(e) // 3 * es
-
-        elif encbase == 16:
-            m *= 2 ** (abs(e) % 4 * es)
-            e = abs(e) // 4 * es
+        if encbase in (8, 16):
+            # keep the mantissa an exact integer: a negative power of two
+            # is borrowed from the next lower exponent of the base
+            bits = encbase == 8 and 3 or 4
+            shift = abs(e) % bits
+            e = abs(e) // bits * es
+            if shift and es < 0:
+                shift = bits - shift
+                e -= 1
+            m *= 2 ** shift
 
         while True:
             if int(m) != m:
